@@ -142,6 +142,16 @@ def _cases(rng: random.Random, tier: str):
         q = R.big_query(rng, G.all_nodes(g))
         X, Y = q[0][:3], q[1][:3]
         out.append({"g": g, "X": X, "Y": Y, "label": "random6", "seed": rng.randrange(1 << 30), "max_states": 64, "models": 1})
+    # SMALL-SCOPE EXHAUSTIVE stream (session 4; appended): every labelled ADMG on 2-3 nodes x every valid query (2412
+    # cases) in the thorough tier, a fixed 1-in-4 stride of it in the quick tier; two random positive models each
+    k = 0
+    for nn in (2, 3):
+        for g in G.all_labelled_admgs(nn):
+            for r in G.all_role_assignments(nn, ("X", "Y"), ("X", "Y")):
+                k += 1
+                if tier == "thorough" or k % 4 == 0:
+                    out.append({"g": g, "X": r["X"], "Y": r["Y"], "label": "smallscope:%d" % nn,
+                                "seed": rng.randrange(1 << 30), "models": 2})
     return out
 
 
